@@ -31,10 +31,10 @@ CELLS = {}
 def ncanon(e):
     """canonical string with commutative operators sorted; entry fields renamed to window/prev/current"""
     x = flow.strip(e)
-    if x[0] == "field" and x[2] in ("0", "1", "2"):
+    if x[0] == "field" and x[2] in CELLS.get("names", {"0": "window", "1": "prev", "2": "current"}):
         base = flow.strip(x[1])
         if base[0] == "call" and base[4] == CELLS.get("site"):
-            return {"0": "window", "1": "prev", "2": "current"}[x[2]]
+            return CELLS.get("names", {"0": "window", "1": "prev", "2": "current"})[x[2]]
     if x[0] == "const" and isinstance(x[2], str):
         try:
             return repr(float(x[2]))
@@ -120,6 +120,10 @@ def check(ctx):
     ctx.check(ok, "C13/key-isolation", "C13/key-isolation/entry-by-key", site(b, ob),
               reason="bucket is obtained by %s; expected self.buckets.entry(key)" % render(ent, maxdepth=3), detail="bucket = self.buckets.entry(key).or_insert(..)")
     init = flow.strip(arg(an, ob, ot, 1))
+    # the bucket is a 3-field value (tuple on the pinned tree); its fields are identified by declaration position
+    CELLS["names"] = {"0": "window", "1": "prev", "2": "current"}
+    if init[0] == "agg" and len(init[2]) == 3:
+        CELLS["names"] = dict(zip([n for n, _ in init[2]], ["window", "prev", "current"]))
     iok = init[0] == "agg" and [ncanon(v) for _, v in init[2]] == ["Instant::now()", "0.0", "0.0"]
     ctx.check(iok, "C13/key-isolation", "C13/key-isolation/fresh-bucket", site(b, ob),
               reason="a new bucket starts as %s; expected (now, 0, 0)" % render(init, maxdepth=3), detail="new bucket = (now, 0, 0)")
@@ -132,10 +136,10 @@ def check(ctx):
             if s.kind == "assign" and s.rv.k == "ref" and s.place.is_local():
                 e = an.rvalue_expr(s.rv, (blk.idx, i), 0)
                 x = flow.strip(e)
-                if x[0] == "field" and x[2] in ("0", "1", "2"):
+                if x[0] == "field" and x[2] in CELLS["names"]:
                     base = flow.strip(x[1])
                     if base[0] == "call" and base[4] == ob:
-                        cells[s.place.local] = {"0": "window", "1": "prev", "2": "current"}[x[2]]
+                        cells[s.place.local] = CELLS["names"][x[2]]
     ctx.check(sorted(cells.values()) == ["current", "prev", "window"], "C13/key-isolation", "C13/key-isolation/cells", site(b, ob),
               reason="bucket cells bound: %s" % cells, detail="window/prev/current are the three fields of this key's entry")
 
